@@ -409,9 +409,7 @@ func ruleSSALiterals(p *Prog, l *Ledger, tier string) {
 	// Marked
 	wm := strset{}
 	for s := range constsOnDerefTrue(eStr) {
-		if strings.HasPrefix(s, "Marked=") {
-			wm.add(s)
-		}
+		wm.add(s)
 	}
 	rm := strset{}
 	for s := range trueLiteralsRead(eRead) {
